@@ -1,6 +1,6 @@
 (* C15 correspondence: scenarios run on the real bootstrapContext over a decorated rosmar cluster connection
    (harness/rest/verif_c15_test.go) are replayed on the model. *)
-From SG Require Export Base.Prelude C15.ConfigProto.
+From SG Require Export Base.Prelude C15.ConfigProto C15.ConfigApply C15.ProtoRace.
 Open Scope N_scope.
 
 Fixpoint insert_sorted (x : N) (l : list N) : list N :=
@@ -45,8 +45,28 @@ Definition ev (c : N) : event :=
   let node := N.to_nat (c / 32) in
   if N.odd c then Crash node else Step node (N.odd (c / 2)) ((c / 4) mod 8).
 
+(* every order in which the Go map of loaded configs can be ranged over *)
+Fixpoint inserts {A} (x : A) (l : list A) : list (list A) :=
+  match l with
+  | [] => [[x]]
+  | y :: r => (x :: l) :: map (cons y) (inserts x r)
+  end.
+Fixpoint perms {A} (l : list A) : list (list A) :=
+  match l with
+  | [] => [[]]
+  | x :: r => flat_map (inserts x) (perms r)
+  end.
+Definition acfg_eqb (a b : acfg) : bool :=
+  (a_cas a =? a_cas b) && ver_eqb (a_ver a) (a_ver b) && colls_eqb (a_colls a) (a_colls b).
+
 Inductive case :=
-| CRun (ops : list opk) (evs : list N) (results : list (option res)) (fin : final).
+| CRun (ops : list opk) (evs : list N) (results : list (option res)) (fin : final)
+(* one fetchAndLoadConfigs of a node: running before, loaded configs, databases whose config document the re-check
+   still finds, running after (rest/config.go; C15/ConfigApply.v) *)
+| CApply (before loaded : list (N * acfg)) (still : list N) (after : list (N * acfg))
+(* a racing scenario: does the store the real code ended in satisfy version_linkage?  It must whenever the schedule
+   satisfies the conditions of the racing theorems (ProtoRace.v) *)
+| CHyp (ops : list opk) (evs : list N) (linked_ok : bool).
 
 Definition check (c : case) : bool :=
   match c with
@@ -56,6 +76,11 @@ Definition check (c : case) : bool :=
       && Bool.eqb (match s_reg (w_st w) with Some _ => true | None => false end) (f_reg_exists fin)
       && list_eqb (pair_eqb rentry_eqb) (match s_reg (w_st w) with Some (_, R) => R | None => [] end) (sort_by_key (f_reg fin))
       && list_eqb (pair_eqb config_eqb) (map (fun dc => (fst dc, snd (snd dc))) (s_cfg (w_st w))) (sort_by_key (f_cfgs fin))
+  | CApply before loaded still after =>
+      existsb (fun p => list_eqb (pair_eqb acfg_eqb) (fetch_and_load (sort_by_key before) p still) (sort_by_key after))
+              (perms loaded)
+  | CHyp ops evs linked_ok =>
+      implb (all_along ev_ok (init_world init_store ops) (map ev evs)) linked_ok
   end.
 
 Definition mismatches (cs : list case) : list N := failing check cs.
